@@ -134,7 +134,7 @@ def bounds_monitor(check):
     """run another property's enumeration as a bounds monitor: only executions that died on a violated unsafe
     precondition / out-of-range index (abort of the debug-assertion build, or such a panic) are C14's business"""
     def part(tier):
-        rep = fe.run_ktmc(check, tier)
+        rep = fe.run_ktmc(check, tier, extra_env={"KTMC_MONITOR": "1"})
         keep = []
         for v in rep["violations"]:
             d = v.get("desc", "")
